@@ -47,7 +47,7 @@ var hCfgVals = map[string][]string{
 	"goos":   {"linux", "darwin", "windows", "plan9"},
 	"goarch": {"amd64", "arm64", "386"},
 	"pkg":    {"p/a", "p/b", "p/c", "golang.org/x/perf/a/very/long/package/path/that/goes/on/and/on/and/on/impl1", "golang.org/x/perf/a/very/long/package/path/that/goes/on/and/on/and/on/impl2"},
-	"cpu":    {"1", "2", "10", "1k", "1Ki", "2M", "1500", "NaN", "inf", "abc", "zed", "3Gi", "1Zi", "1Yi", "2Z", "5.5", "0.5k", "999999999.5", "1000000000", "9.999999994e-1", "1e0", "1.0000000006", "4", "8", "010", "0100", "007", "08", "012k", ".5k", "1.k", ".5Mi", "2.5k", "600", "5.", "0.000000000000000000000000125Ki", "1000000000000000000000000000000k", "0000000000000000000000000000000000002", "+Inf", "-Inf", "+inf", "Infinity", "-infinity", "+7", "\xb5", "\u00b5"},
+	"cpu":    {"1", "2", "10", "1k", "1Ki", "2M", "1500", "NaN", "inf", "abc", "zed", "3Gi", "1Zi", "1Yi", "2Z", "5.5", "0.5k", "999999999.5", "1000000000", "9.999999994e-1", "1e0", "1.0000000006", "4", "8", "010", "0100", "007", "08", "012k", ".5k", "1.k", ".5Mi", "2.5k", "600", "5.", "0.000000000000000000000000125Ki", "1000000000000000000000000000000k", "0000000000000000000000000000000000002", "+Inf", "-Inf", "+inf", "Infinity", "-infinity", "+7", "\xb5", "\u00b5", "100000001Ki", "99999999Ki", "16777217k", "16777216k", "1Kib", "1001", "1010", "1023", "1025"},
 	"note":   {"base", "opt", "opt2", "x y", "zz", "\xffa", "\xfeb", "\xc3", "é", "\U00010000", "\uffff", "\xf0\x90", "opt ", "opt\t", "base \t", "box\xe9", "box\xe8"}, // invalid UTF-8 and astral runes: bytewise is not code-point order
 	"commit": {"c1", "c2", "c3", "c4", "c5", "c6"},
 }
@@ -1027,6 +1027,8 @@ func hRun(t *testing.T, r *sim.Run, prop string) {
 				nsfCheck(hp, prop == "C08")
 				if len(hp.keys) > 0 {
 					_ = hp.keys[T.Intn(len(hp.keys), "string-key")].String()
+					// ... and a comparison: what it learns about the fields now must not outlive later results
+					_ = hp.keys[T.Intn(len(hp.keys), "less-a")].Less(hp.keys[T.Intn(len(hp.keys), "less-b")])
 				}
 			}
 			r.Hit("NonSingularFields called between two projected results")
